@@ -273,12 +273,7 @@ func (p *provider) setSingleton(key instanceKey, instance any) {
 		return
 	}
 
-	p.singletons.Store(key, instance)
-
-	// Track key for iteration during disposal
-	p.singletonKeysMu.Lock()
-	p.singletonKeys = append(p.singletonKeys, key)
-	p.singletonKeysMu.Unlock()
+	p.storeSingleton(key, instance)
 
 	// Track if disposable
 	if d, ok := instance.(Disposable); ok {
@@ -286,6 +281,17 @@ func (p *provider) setSingleton(key instanceKey, instance any) {
 		p.disposables = append(p.disposables, d)
 		p.disposablesMu.Unlock()
 	}
+}
+
+// storeSingleton makes a singleton instance resolvable under the given key without
+// tracking it for disposal (the caller tracks each distinct instance once).
+func (p *provider) storeSingleton(key instanceKey, instance any) {
+	p.singletons.Store(key, instance)
+
+	// Track key for iteration during disposal
+	p.singletonKeysMu.Lock()
+	p.singletonKeys = append(p.singletonKeys, key)
+	p.singletonKeysMu.Unlock()
 }
 
 // findDescriptor finds a descriptor for the given service type and optional key.
